@@ -44,7 +44,7 @@ func pick[T any](r *rand.Rand, xs ...T) T { return xs[r.Intn(len(xs))] }
 
 func genRand(r *rand.Rand, closeMid bool) randCase {
 	rc := randCase{}
-	rc.Cfg = sessCfg{Budget: pick(r, 1, 2, 5), Interval: pick(r, time.Millisecond, 50*time.Millisecond, time.Second, 0), GivenTID: r.Intn(3) != 0}
+	rc.Cfg = sessCfg{Budget: pick(r, 1, 2, 5), Interval: pick(r, time.Millisecond, 50*time.Millisecond, time.Second, 0), GivenTID: r.Intn(3) != 0, CloseFails: r.Intn(3) == 0}
 	if r.Intn(7) == 0 && rc.Cfg.Budget > 1 {
 		rc.Cfg.InitFails = 1 + r.Intn(rc.Cfg.Budget-1)
 	}
